@@ -2,7 +2,7 @@
 from engine.runner import mk_case
 
 U = "Union[int, bool, None, str]"
-DOC = "{'e': [], 'em': {}, 'runs': [{'tags': []}, {'tags': []}], 'x': u1, 'xs': [u1, 5], 'ref': r1, 'lo': u2, 'hi': 10, 'allowed': [r1, 7, 'q'], 'm': {'k': r1, 'j': 2}, 'n': 2, 'w': 'ab'}"
+DOC = "{'e': [], 'em': {}, 'runs': [{'tags': []}, {'tags': []}], 'x': u1, 'xs': [u1, 5], 'ref': r1, 'lo': u2, 'hi': 10, 'allowed': [r1, 7, 'q'], 'm': {'k': r1, 'j': 2}, 'n': 2, 'w': 'ab', 'pair': [u2, 10]}"
 
 
 def BOUNDS(ctx):
@@ -75,6 +75,16 @@ CASES = [
     ("mod.last.selects_empty_list", "('e',)", "Value.not_equal_to(DataPath('runs', ListValue(), 'tags').last())", "Value.not_equal_to(ref_get((('prim', 'runs'), ('list', NULL), ('prim', 'tags')), doc, None, 'last'))", []),
     ("mod.single.selects_empty_list", "('e',)", "Value.in_([DataPath(MapValue(key='e')).single(), r1])", "Value.in_([ref_get((('map', K('equal_to', 'e')),), doc)[0], r1])", []),
     ("mod.first.selects_empty_map", "('em',)", "Value.equal_to(DataPath(MapValue(key='em')).first())", "Value.equal_to({})", []),
+    # an argument path that runs into a string mid-way selects nothing (a str is not a container), whatever the part
+    ("arg.index_into_str", "('x',)", "Value.equal_to(DataPath('w', 0))", "Value.equal_to(ref_get((('prim', 'w'), ('prim', 0)), doc))", []),
+    ("arg.symbolic_index.into_str", "('x',)", "Value.not_equal_to(DataPath('w', i))", "Value.not_equal_to(ref_get((('prim', 'w'), ('prim', i)), doc))", [("i", "int")]),
+    ("arg.index_into_str.in_list", "('x',)", "Value.in_([DataPath('w', 1), DataPath('w', -1), 5])", "Value.in_([None, None, 5])", []),
+    ("arg.listvalue_into_str", "('x',)", "Value.in_(DataPath('w', ListValue()))", "Value.in_([])", []),
+    # tuple arguments holding paths stay tuples (a list node never equals a tuple)
+    ("in_tuple.eq", "('pair',)", "Value.equal_to((DataPath('lo'), DataPath('hi')))", f"Value.equal_to(({lit(P_LO)}, {lit(P_HI)}))", []),
+    ("in_tuple.ne", "('pair',)", "Value.not_equal_to((DataPath('lo'), 10))", f"Value.not_equal_to(({lit(P_LO)}, 10))", []),
+    ("in_tuple.in", "('x',)", "Value.in_((DataPath('ref'), t))", f"Value.in_(({lit(P_REF)}, t))", [("t", "int")]),
+    ("in_list.eq", "('pair',)", "Value.equal_to([DataPath('lo'), DataPath('hi')])", f"Value.equal_to([{lit(P_LO)}, {lit(P_HI)}])", []),
     ("combined", "('x',)", "Value.greater_than(DataPath('lo')) & (Value.less_than(DataPath('hi')) | Value.equal_to(DataPath('ref')))",
      f"Value.greater_than({lit(P_LO)}) & (Value.less_than({lit(P_HI)}) | Value.equal_to({lit(P_REF)}))", []),
 ]
